@@ -385,9 +385,9 @@ class DataProviderLinked(DataProvider):
         diff = target_axis - index
 
         if method == "forward":
-            diff = diff[diff >= 0]
+            diff = np.where(diff >= 0, diff, np.inf)
         elif method == "backward":
-            diff = diff[diff <= 0]
+            diff = np.where(diff <= 0, diff, np.inf)
 
         diff = np.abs(diff)
 
